@@ -397,6 +397,14 @@ def h_svd_matrix_roundtrip(ctx, q, layout='C'):
     finally:
         svdmod.svd = real
     ctx.claim('mode_size_4', all(G.shape[1] == 4 for G in Y) and len(Y) == q)
+    # the interleaving itself: mode k of the result carries bit k of the row index and bit k of the column index
+    from symtt.ref import ref_get
+    ok = []
+    for row in range(N):
+        for col in range(N):
+            idx = [((row >> k) & 1) + 2 * ((col >> k) & 1) for k in range(q)]
+            ok.append(ctx.eq(ref_get(Y, idx), A[row, col]))
+    ctx.claim('mode_k_pairs_row_bit_k_with_column_bit_k', ctx.all_(ok))
     B = teneva.full_matrix(Y)
     ctx.claim('roundtrip', ctx.all_eq(B, A))
     # the result of full_matrix fed back in (whatever its memory order) converts to the same matrix again
@@ -454,6 +462,8 @@ def instances(tier):
         out.append({'func': 'h_svd_perm4', 'params': {'with_cap': cap, 'ordered': True}, 'opts': {'symbolic_signs': False}})
     if tier != 'quick':
         out.append({'func': 'h_svd_perm4', 'params': {'with_cap': False, 'ordered': False}, 'opts': {'symbolic_signs': False}})
+    if tier == 'quick':
+        out.append({'func': 'h_svd_matrix_roundtrip', 'params': {'q': 3}})       # (the two bit orders differ from q = 3 on)
     for q in ([1, 2] if tier == 'quick' else [1, 2, 3]):
         out.append({'func': 'h_svd_matrix_roundtrip', 'params': {'q': q}})
         for layout in ('F', 'T'):
